@@ -359,3 +359,49 @@ Definition scf_status (s : scf_state) (id : N) : option (bool * list N) :=
   | Some it => Some (si_pending it, si_sent it)
   | None => None
   end.
+
+(* ---------- receive: the canonical blocks of a received bundle and their processing flags ---------- *)
+(* A canonical block as far as Core.receive looks at it: whether this node knows the block type, and
+   the block processing control flags (bpv7/block_control_flags.go: 1 replicate in every fragment,
+   2 report when the block cannot be processed, 4 delete the bundle when .., 16 remove the block when ..).
+   The flags of a block the node *can* process demand nothing. *)
+Record scf_blk := { bk_known : bool; bk_flags : N }.
+Definition scf_fl_replicate : N := 1.
+Definition scf_fl_report : N := 2.
+Definition scf_fl_delete : N := 4.
+Definition scf_fl_remove : N := 16.
+Definition scf_blk_has (f : N) (b : scf_blk) : bool := negb (N.land (bk_flags b) f =? 0).
+
+Fixpoint scf_remove_at (i : nat) (l : list scf_blk) : list scf_blk :=
+  match l with
+  | [] => []
+  | x :: r => match i with O => r | S j => x :: scf_remove_at j r end
+  end.
+
+(* The loop of receive: i = len-1 down to 0 over the block array, which shrinks in place when a block is
+   removed (the blocks behind i move one slot to the left).  None = bundleDeletion (an unsupported block
+   demands the deletion); Some bl = the blocks the bundle goes on with. *)
+Fixpoint scf_rx_scan (n : nat) (bl : list scf_blk) : option (list scf_blk) :=
+  match n with
+  | O => Some bl
+  | S i =>
+    match nth_error bl i with
+    | None => scf_rx_scan i bl
+    | Some b =>
+      if bk_known b then scf_rx_scan i bl
+      else if scf_blk_has scf_fl_delete b then None
+      else if scf_blk_has scf_fl_remove b then scf_rx_scan i (scf_remove_at i bl)
+      else scf_rx_scan i bl
+    end
+  end.
+
+Definition scf_rx_blocks (bl : list scf_blk) : option (list scf_blk) := scf_rx_scan (length bl) bl.
+
+(* [sb_del] of a received bundle with the blocks [bl] *)
+Definition scf_rx_del (bl : list scf_blk) : bool :=
+  match scf_rx_blocks bl with None => true | Some _ => false end.
+
+(* what the property says: refused for cause only when an *unsupported* block demands deletion; an
+   unsupported block flagged for removal is dropped, everything else stays *)
+Definition scf_blk_demands_deletion (b : scf_blk) : bool := negb (bk_known b) && scf_blk_has scf_fl_delete b.
+Definition scf_blk_stays (b : scf_blk) : bool := bk_known b || negb (scf_blk_has scf_fl_remove b).
